@@ -128,8 +128,8 @@ NodeErr(par, rows, genes, leaves, types, draws, out) ==
         ELSE IF ~(lset = LeavesOfParent(R, par) /\ Len(leaves) = Cardinality(lset)) THEN 210
                                           \* only and all leaves below the node (C02)
         ELSE IF ~(\A i \in 1..Len(leaves) : types[i] = AncestorAt(R, LeafLevel(R), leaves[i], cl)) THEN 211
-        ELSE IF ~(Len(draws) = run.B) THEN 212
-        ELSE IF ~(\A d \in 1..Len(draws) : DrawOK(draws[d], Len(genes), FactorAt(par)[1], FactorAt(par)[2])) THEN 213
+        ELSE IF run.draws /\ ~(Len(draws) = run.B) THEN 212
+        ELSE IF run.draws /\ ~(\A d \in 1..Len(draws) : DrawOK(draws[d], Len(genes), FactorAt(par)[1], FactorAt(par)[2])) THEN 213
         ELSE LET cerrs == {IF ContractErr(run.B, run.K, ch, out[j].a, out[j].k, out[j].ru) # 0
                           THEN ContractErr(run.B, run.K, ch, out[j].a, out[j].k, out[j].ru)
                           ELSE IF ~run.votes THEN 0
